@@ -302,6 +302,22 @@ pub fn run(p: &Params, rep: &mut Report) {
             ck.rep.eval(Some(&format!("thue-morse{}", order)));
         }
     }
+    // every subject length from 0 to 300 (with a pattern of length 1-40 planted at a random place, or absent)
+    for n in (0..=300usize).filter(|n| *n as u64 % p.nshards == p.shard) {
+        for _ in 0..2 {
+            let mut a: Vec<u32> = (0..n).map(|_| *rng.pick(&[0x61u32, 0x61, 0x62])).collect();
+            let lb = 1 + rng.usize(40.min(n.max(1)));
+            let b: Vec<u32> = (0..lb).map(|_| *rng.pick(&[0x61u32, 0x62, 0x62])).collect();
+            if n >= lb && rng.chance(2, 3) {
+                let at = rng.usize(n - lb + 1);
+                a[at..at + lb].copy_from_slice(&b);
+            }
+            let i = rng.below(n as u64 + 2) as i32 - 1;
+            check_tuple(&mut ck, &a, &b, &[0x63], i, rng.below(n as u64 + 2) as i32);
+            ck.rep.inc("length_sweep_tuples");
+        }
+        ck.rep.eval(Some(&format!("len{}", n)));
+    }
     // periodic, palindromic and constant strings: subject u^k v against patterns u^j w (every period 1-4 over two letters)
     let nper = p.size(400, 4000);
     for _ in 0..nper {
